@@ -195,4 +195,19 @@ mod verif_store {
         assert!(store.memory.get(&ka).is_some() == (a_present && !pa));
         assert!(store.memory.get(&kb).is_some() == !pb);
     }
+
+    // Guard discipline of remove_if on ONE concrete store content (two fixed records, predicate selecting both):
+    // the stand-in asserts that no locking map call happens while an iteration guard is alive (C16).
+    // BOUNDED: a single concrete execution - a stand-in for the symbolic harness above, which CBMC does not finish.
+    #[kani::proof]
+    #[kani::unwind(6)]
+    fn store_remove_if_concrete() {
+        let store = MemoryStore::new(Arc::new(FixedTimer(0)));
+        store.memory.insert(Bytes::from_static(b"a"), Record::new(Bytes::from_static(b"va"), 1, 0, 0));
+        store.memory.insert(Bytes::from_static(b"b"), Record::new(Bytes::from_static(b"vb"), 2, 0, 0));
+        let res = store.remove_if(&mut |_k: &KeyType, _r: &Record| true);
+        assert!(store.memory.guards.get() == 0);
+        assert!(res.len() == 2);
+        assert!(store.memory.len() == 0);
+    }
 }
